@@ -64,6 +64,9 @@ def run_dialogue(vtag, all_metrics, answers, no_colors=None, limit=None, version
     text = "".join(a + "\n" for a in answers)
     fin = CountingIn(text, limit or (len(answers) + 5))
     h = zlib.crc32(repr((vtag, bool(all_metrics), list(answers))).encode("utf-8", "replace"))
+    if answers and answers[-1] and h % 5 == 3:
+        text = text[:-1]  # the last line without a line end (an answers file without a final newline) is still a line
+        fin = CountingIn(text, limit or (len(answers) + 5))
     if no_colors is None:
         no_colors = h % 3 != 0
     raw = None
